@@ -6,6 +6,8 @@ package main
 // the quantified hypotheses stay in the query as well.
 
 import (
+	"fmt"
+	"os"
 	"strings"
 )
 
@@ -250,9 +252,34 @@ func prepareQuery(q *Query) {
 			}
 		}
 		cands = map[Sort][]*Term{}
+		seenC = map[string]bool{}
 		if len(lits) > 0 {
 			cands[SInt] = lits
+			for _, l := range lits {
+				seenC[l.String()] = true
+			}
 		}
+	}
+	// loop variables (havocked at a loop header) are the positions a loop body talks about
+	{
+		c := newSigCollector()
+		for _, h := range q.Hyps {
+			c.walk(h)
+		}
+		n := 0
+		for _, name := range sortedKeys(c.vars) {
+			if c.vars[name] == SInt && strings.HasPrefix(name, "loop") && n < 4 {
+				v := Var(name, SInt)
+				if !seenC[v.String()] {
+					seenC[v.String()] = true
+					cands[SInt] = append(cands[SInt], v, Add(v, IntLit(1)))
+					n++
+				}
+			}
+		}
+	}
+	if os.Getenv("VGO_DEBUG_INST") != "" {
+		fmt.Fprintln(os.Stderr, "INST", q.Name, len(sks), cands[SInt])
 	}
 	q.Goal = witnessExists(q.Goal, q.Hyps, sks)
 	var inst []*Term
